@@ -456,7 +456,11 @@ fn mutated_self_fields(block: &syn::Block) -> Vec<String> {
 }
 
 fn translate_fn(world: &World, t: &'static Target, sig: &syn::Signature, block: &syn::Block, ictx: &ImplCtx) -> Res<(String, FnInfo, HashSet<String>)> {
-    let lean = match &t.what { What::ClosureFn { suffix, .. } => format!("{}_{}", lean_name(t), suffix), _ => lean_name(t) };
+    let mut lean = match &t.what { What::ClosureFn { suffix, .. } => format!("{}_{}", lean_name(t), suffix), _ => lean_name(t) };
+    // a method named like a field of its (regenerated) struct would clash with the projection of the Lean structure
+    if let Some(si) = t.container.ns().and_then(|n| world.structs.get(n)) {
+        if si.lean_module.is_some() && si.fields.iter().any(|(f, _)| f == t.name) { lean.push_str("_fn"); }
+    }
     let mut tr = new_tr(world, t, lean.clone());
     // generic parameters of the impl are opaque Lean type variables; the generic parameters of the self struct are
     // instantiated as the impl header says
